@@ -25,6 +25,20 @@ def name_in(shard, n, stem):
         j += 1
 
 
+def saturated_scenario(sid, typ):
+    """two instances saturate the limit, one dies, the survivor keeps sending the SAME saturated report: once the dead one is reclaimed what it
+    held must no longer be counted (the survivor's reports are answered from the freed capacity)"""
+    up = {"name": "ua1", "type": typ, "strategy": "globalAllocate", "max": 100 if typ == "mif" else 1000, "burst": 0 if typ == "mif" else 2000}
+    steps = [{"k": "hb", "inst": "i1"}, {"k": "hb", "inst": "i2"}]
+    for k in range(24):
+        inst = "i%d" % (1 + k % 2)
+        steps += [{"k": "hb", "inst": "i1"}, {"k": "hb", "inst": "i2"}, {"k": "report", "up": "ua1", "inst": inst, "uc": "full", "lc": "over"}]
+    steps.append({"k": "obs"})
+    for k in range(24):      # i1 is silent from here on; i2 heartbeats and reports every 2 s
+        steps += [{"k": "sleep", "ms": 2000}, {"k": "hb", "inst": "i2", "keepalive": True}, {"k": "report", "up": "ua1", "inst": "i2", "uc": "full", "lc": "over"}, {"k": "obs"}]
+    return {"id": sid, "shards": 1, "servers": ["A"], "store": "local", "upstreams": [up], "steps": steps}
+
+
 def to_scenario(sid, hist, rng):
     sc = to_scenario1(sid, hist, rng)
     if sid % 4 == 3:
@@ -60,6 +74,8 @@ def to_scenario1(sid, hist, rng):
             steps.append({"k": "hb", "inst": inst})
         elif h["k"] == "report":
             steps.append({"k": "report", "up": "ua%d" % h["u"], "inst": inst, "uc": "full", "lc": "honest"})
+            if rng.random() < 0.4:
+                steps.append({"k": "obs", "after_report": "ua%d" % h["u"]})
         elif h["k"] == "acquire":
             steps.append({"k": "acquire", "up": "uc%d" % h["u"], "inst": inst, "tokens": 2})
         elif h["k"] == "sleep":
@@ -84,7 +100,9 @@ BASE = 946684800000   # virtual time starts at 2000-01-01 (TLC integers are 32 b
 
 def project(t):
     evs = []
+    prev = None
     for e in t["events"]:
+        was, prev = prev, e
         if "now" in e:
             e = dict(e, now=e["now"] - BASE)
         if e["k"] == "hb":
@@ -100,6 +118,10 @@ def project(t):
                     for inst in ob.get("quotas", {}):
                         present.append([inst, up])
             evs.append({"k": "obs", "now": e["now"], "present": sorted(present)})
+            if was is not None and was["k"] == "report" and "err" not in was:      # the observation directly follows an answered report
+                for srv, ob in e["ups"].get(was["up"], {}).items():
+                    if "sum" in ob and "err" not in ob:
+                        evs.append({"k": "sumobs", "u": was["up"], "now": e["now"], "sum": ob["sum"], "livesum": sum(ob.get("quotas", {}).values())})
         elif e["k"] == "capacity" and "err" not in e:
             evs.append({"k": "capacity", "u": e["up"], "now": e["now"], "granted": e["granted"], "max": e["max"]})
     return evs
@@ -128,6 +150,7 @@ def main(tier, replay):
             if len(hists) < 10:
                 raise Infra("too few histories")
             scs = [to_scenario(i + 1, h, rng) for i, h in enumerate(hists)]
+            scs += [saturated_scenario(900001, "mif"), saturated_scenario(900002, "tb")]
         binp = os.path.join(wd, "limsrv.test")
         vlib.go_test_build("./limsrv", binp)
         traces, crashed = vlib.run_test_driver(binp, scs, wd, timeout=1500)
